@@ -5,7 +5,7 @@
 pub mod node;
 
 use self::node::Node;
-use crate::grammar::{Element, NamedSymbol, Primitive};
+use crate::grammar::{Element, Module, NamedSymbol, Primitive};
 use crate::utils::ptr_util::{OwnedPtr, WeakPtr};
 use std::collections::HashMap;
 
@@ -337,6 +337,18 @@ impl Ast {
 
         // Add the element to this AST.
         self.add_element(element)
+    }
+
+    /// Moves a module into this AST, and returns a [WeakPtr] to it, after adding an entry for the module into this
+    /// AST's [lookup table](Ast::lookup_table), unless an entry already exists for its identifier.
+    ///
+    /// Unlike other named elements, a module never replaces an existing entry: modules can be re-opened, so any of
+    /// their declarations will do, and a definition whose scoped identifier is the same as a (nested) module's must be
+    /// what a lookup finds no matter in which order the files declaring them were parsed.
+    pub(crate) fn add_module(&mut self, module: OwnedPtr<Module>) -> WeakPtr<Module> {
+        let scoped_identifier = module.borrow().parser_scoped_identifier();
+        self.lookup_table.entry(scoped_identifier).or_insert(self.elements.len());
+        self.add_element(module)
     }
 }
 
